@@ -7,5 +7,4 @@ CONSTANTS
   Kinds = {"pos", "fail", "cut", "ask"}
 INIT Init
 NEXT Next
-INVARIANTS ObsFaithful
 CHECK_DEADLOCK FALSE
